@@ -10,6 +10,11 @@ in between — stat the file again (`restat`: `some size` when the second `os.St
 same id, `none` otherwise; an input from the environment) and use that size (fix f247e22). Then
 `old.LastSeenSize ≤ size ∧ offset ≤ size` ⇒ keep the old object (its offset), refresh `LastSeenSize`; otherwise
 replace it by the new one (offset 0).
+
+A descriptor whose id the scan did not find: forgotten (`keepsMissed = false`, the code before the repair of F61), or
+— `keepsMissed = true`, proposed-fixes/F61.diff — kept for ONE more scan: its unpersisted flag `missed` is set; a
+descriptor that is missing again while flagged is forgotten; a descriptor that is found and kept loses the flag. Which of
+the two the code does is regenerated (`Generated.C17.mergeKeepsMissedOneScan`).
 -/
 namespace Logrange.Descs
 
@@ -17,6 +22,8 @@ structure Desc where
   id : Bytes
   offset : Nat
   lastSeenSize : Nat
+  /-- the last scan did not find the file (only ever set with `keepsMissed`) -/
+  missed : Bool := false
 deriving DecidableEq, Repr
 
 /-- the size the merge decides with. `restats = false` is the code before fix f247e22 (no second stat). -/
@@ -30,14 +37,24 @@ def mergeOne (restats : Bool) (old : Option Desc) (nd : Desc) (restat : Option N
   | some od =>
     let size := effSize restats od nd restat
     if od.lastSeenSize ≤ size ∧ od.offset ≤ size then
-      ({ od with lastSeenSize := size }, true)
+      ({ od with lastSeenSize := size, missed := false }, true)
     else ({ nd with lastSeenSize := size }, false)
 
 def lookup (ds : List Desc) (id : Bytes) : Option Desc := ds.find? (fun d => d.id == id)
 
-/-- the merged set, in the order of `new` (the result's key set is `new`'s key set); each new descriptor comes with
-what a second stat of its file would answer -/
-def mergeDescs (restats : Bool) (old : List Desc) (new : List (Desc × Option Nat)) : List (Desc × Bool) :=
-  new.map (fun (nd, rs) => mergeOne restats (lookup old nd.id) nd rs)
+/-- the scan did not find the descriptor's id -/
+def absent (new : List (Desc × Option Nat)) (od : Desc) : Bool := !(new.any (fun p => p.1.id == od.id))
+
+/-- the descriptors of `old` the scan did not find and that are kept for one more scan (order of `old`) -/
+def keptMissed (keepsMissed : Bool) (old : List Desc) (new : List (Desc × Option Nat)) : List (Desc × Bool) :=
+  if keepsMissed then
+    (old.filter (fun od => absent new od && !od.missed)).map (fun od => ({ od with missed := true }, true))
+  else []
+
+/-- the merged set: first the ids of `new`, in its order; each new descriptor comes with what a second stat of its file
+would answer; then (`keepsMissed`) the descriptors of `old` that are kept although the scan did not find them -/
+def mergeDescs (restats : Bool) (old : List Desc) (new : List (Desc × Option Nat)) (keepsMissed : Bool := false) :
+    List (Desc × Bool) :=
+  new.map (fun (nd, rs) => mergeOne restats (lookup old nd.id) nd rs) ++ keptMissed keepsMissed old new
 
 end Logrange.Descs
